@@ -577,6 +577,72 @@ func gen(seed uint64, tier string) {
 		p := pt(r)
 		fmt.Fprintf(out, "nbp %s %s\n", vproto.F2H(p.X), vproto.F2H(p.Y))
 	}
+	// box lines with NaN sides (phase 4; NaN is outside the quantifier, class suffix -nan): Overlaps / Intersection /
+	// Empty are judged by what every reading demands on an axis WITHOUT NaN (SpecNaN.lean), every answer incl. Extend
+	// is compared with the model run with math.Min/Max/< on NaN. Emitted last: the stream above is unchanged.
+	nans := []uint64{0x7ff8000000000000, 0xfff8000000000000, 0x7ff8000000000001, 0x7ffc0000deadbeef}
+	nanv := func() float64 { return math.Float64frombits(nans[r.Intn(len(nans))]) }
+	nanSides := func(b *geom.Bounds, prob int) (*geom.Bounds, bool) {
+		c := *b
+		any := false
+		for _, f := range []*float64{&c.Min.X, &c.Min.Y, &c.Max.X, &c.Max.Y} {
+			if r.Intn(prob) == 0 {
+				*f = nanv()
+				any = true
+			}
+		}
+		return &c, any
+	}
+	// catalogue: one axis carries every pair of intervals (separated, touching, nested, inverted, infinite) and no NaN,
+	// the other axis carries the NaN (one to four of its sides)
+	every := 6
+	if tier == "thorough" {
+		every = 1
+	}
+	for _, i1 := range ivs {
+		for _, i2 := range ivs {
+			if r.Intn(every) != 0 {
+				continue
+			}
+			o1, o2 := riv(), riv()
+			switch r.Intn(4) {
+			case 0:
+				o1.lo = nanv()
+			case 1:
+				o1.hi = nanv()
+			case 2:
+				o2.lo = nanv()
+			default:
+				o2.hi = nanv()
+			}
+			if r.Intn(3) == 0 {
+				o1.hi = nanv()
+			}
+			if r.Intn(3) == 0 {
+				o2.lo = nanv()
+			}
+			var a, b *geom.Bounds
+			if r.Bool() {
+				a, b = mk(i1, o1), mk(i2, o2)
+			} else {
+				a, b = mk(o1, i1), mk(o2, i2)
+			}
+			A, B := boxToks(a), boxToks(b)
+			fmt.Fprintf(out, "ovl %s %s\nint %s %s\next %s %s\nempty %s\nempty %s\n", A, B, A, B, A, B, A, B)
+		}
+	}
+	for i := 0; i < nBox/16; i++ {
+		a, na := nanSides(genBox(r), 4)
+		b, nb := nanSides(genBox(r), 4)
+		c, _ := nanSides(genBox(r), 6)
+		if !na && !nb {
+			a.Max.Y = nanv()
+		}
+		A, B, C := boxToks(a), boxToks(b), boxToks(c)
+		fmt.Fprintf(out, "ovl %s %s\nint %s %s\next %s %s\next3 %s %s %s\n", A, B, A, B, A, B, A, B, C)
+		fmt.Fprintf(out, "copy %s\nempty %s\nempty %s\nself %s\nself %s\n", A, A, B, A, B)
+	}
+	fmt.Fprintf(out, "ext %s NIL\n", boxToks(&geom.Bounds{Min: P(nanv(), 0), Max: P(1, 1)}))
 }
 
 // ---------------------------------------------------------------- implementation runner
